@@ -110,7 +110,11 @@ class ElementTraits<std::index_sequence<I...>, Parameter...>
 
     static constexpr auto TRAILING_ALIGNMENTS = calculate_trailing_alignments();
 
-    template <template <class> class Predicate>
+    // A run of fields that is compared as one range of bytes must not contain alignment padding (BreakAtPadding),
+    // otherwise the result depends on indeterminate bytes. A run that is compared for equality must contain at most
+    // one FixedSize/VaryingSize field (BreakBehindSpan), otherwise operands whose fields differ in size can compare
+    // equal.
+    template <template <class> class Predicate, bool BreakAtPadding = false, bool BreakBehindSpan = false>
     static constexpr auto calculate_consecutive_indices() noexcept
     {
         std::array<std::size_t, sizeof...(Parameter)> consecutive_indices{((void)I, SKIP)...};
@@ -120,7 +124,20 @@ class ElementTraits<std::index_sequence<I...>, Parameter...>
             {
                 if constexpr (Predicate<typename detail::ParameterTraits<Parameter>::ValueType>::value)
                 {
+                    if constexpr (BreakAtPadding && I != 0)
+                    {
+                        if (std::get<(I == 0 ? 0 : I - 1)>(TRAILING_ALIGNMENTS) <
+                            detail::ParameterTraits<Parameter>::ALIGNMENT)
+                        {
+                            index = I;
+                        }
+                    }
                     consecutive_indices[index] = I;
+                    if constexpr (BreakBehindSpan &&
+                                  detail::ParameterTraits<Parameter>::TYPE != detail::ParameterType::PLAIN)
+                    {
+                        index = I + 1;
+                    }
                 }
                 else
                 {
@@ -140,10 +157,10 @@ class ElementTraits<std::index_sequence<I...>, Parameter...>
         calculate_consecutive_indices<detail::IsTriviallySwappable>()};
 
     static constexpr auto CONSECUTIVE_EQUALITY_MEMCMPABLE_INDICES{
-        calculate_consecutive_indices<detail::EqualityMemcmpCompatible>()};
+        calculate_consecutive_indices<detail::EqualityMemcmpCompatible, true, true>()};
 
     static constexpr auto CONSECUTIVE_LEXICOGRAPHICAL_MEMCMPABLE_INDICES{
-        calculate_consecutive_indices<detail::LexicographicalMemcmpCompatible>()};
+        calculate_consecutive_indices<detail::LexicographicalMemcmpCompatible, true>()};
 
     template <std::size_t K>
     static constexpr std::size_t trailing_alignment() noexcept
